@@ -65,6 +65,18 @@ fn gather(ctx: &WorkerCtx, p: &Plan, with_w: bool) -> Vec<(u64, &'static str, Ve
             work.push((b1 + i, "S", c.to_vec()));
         }
     });
+    // straight-line statement pairs over three inputs, run at all four widths with one fixed script: the
+    // access window is exactly the three variables (plus scratch), so the last cell of a minimal tape is
+    // an operand (a wider-than-cell load or store of the last cell crosses the guard page)
+    let bl = base;
+    base += spaces::space_l(0, 2, &mut |i, c| {
+        if ctx.owns(bl + i) && c.starts_with(spaces::PREFIXES[0].as_bytes()) {
+            // only `a` is printed (the usual epilogue would widen the window to five cells)
+            let mut v = c[..c.len() - spaces::EPILOGUE.len()].to_vec();
+            v.push(b'.');
+            work.push((bl + i, "L", v));
+        }
+    });
     let bi = base;
     base += spaces::space_i(if p.m_full { 4 } else { 3 }, &mut |i, c| {
         if ctx.owns(bi + i) {
@@ -76,6 +88,14 @@ fn gather(ctx: &WorkerCtx, p: &Plan, with_w: bool) -> Vec<(u64, &'static str, Ve
         base += spaces::space_w(p.m_full, &mut |i, c| {
             if ctx.owns(b2 + i) {
                 work.push((b2 + i, "W", c.to_vec()));
+            }
+        });
+    }
+    if with_w {
+        let b3 = base;
+        base += spaces::space_p(p.m_full, &mut |i, c| {
+            if ctx.owns(b3 + i) {
+                work.push((b3 + i, "P", c.to_vec()));
             }
         });
     }
@@ -91,6 +111,18 @@ fn gather(ctx: &WorkerCtx, p: &Plan, with_w: bool) -> Vec<(u64, &'static str, Ve
 fn canon_runs(p: &Plan, tag: &str, code: &[u8], w: Width) -> Vec<(Vec<u8>, Canon)> {
     let runs: Vec<(Vec<u8>, Canon)> = if tag == "W" {
         spaces::W_SCRIPTS.iter().map(|s| (s.to_vec(), refbf::run(code, w, s, p.step_cap * 4, false))).collect()
+    } else if tag == "L" {
+        vec![(vec![9, 4, 6], refbf::run(code, w, &[9, 4, 6], p.step_cap * 4, false))]
+    } else if tag == "P" {
+        spaces::W_SCRIPTS
+            .iter()
+            .map(|s| s.to_vec())
+            .chain([spaces::P_SMALL_SCRIPT.to_vec()])
+            .map(|s| {
+                let c = refbf::run(code, w, &s, p.step_cap * 16, false);
+                (s, c)
+            })
+            .collect()
     } else if tag == "M" {
         if code.contains(&b',') {
             spaces::W_SCRIPTS.iter().map(|s| (s.to_vec(), refbf::run(code, w, s, p.m_step_cap, false))).collect()
@@ -112,7 +144,8 @@ fn sub_code(backend: Backend, w: Width, level: u32, place: usize) -> u64 {
 pub fn c06_program(ctx: &mut WorkerCtx, p: &Plan, idx: u64, tag: &str, code: &[u8]) {
     let text = std::str::from_utf8(code).unwrap();
     ctx.count("programs", 1);
-    for &w in &p.widths {
+    let all_widths = Width::ALL.to_vec();
+    for &w in if tag == "L" { &all_widths } else { &p.widths } {
         let runs = canon_runs(p, tag, code, w);
         ctx.count("env_nodes", runs.len() as u64);
         if runs.is_empty() {
@@ -481,7 +514,8 @@ pub fn info(prop: &'static str, tier: Tier) -> CheckInfo {
             id: "C06",
             level: "model_checking",
             rule: format!(
-                "Every program of A(len<={}), S(1,{}), the regression corpus, K and the walker family M (dynamic walks of k hops x s cells in \
+                "Every program of A(len<={}), S(1,{}), the regression corpus, K, I(3) (loops around shifting at-most-once loops), L (every straight-line pair of statements over three \
+                 inputs printing one cell, so that the last cell of a minimal tape is an operand; all four widths), the stride loops T and the walker family M (dynamic walks of k hops x s cells in \
                  both directions up to {} cells, walks that mark, leave and revisit cells, scans over runs laid down before, zig-zags \
                  crossing several reallocations in both directions) is executed in checked mode on all four backends, levels 0..3, \
                  widths {:?}, with every heap allocation made during execution placed by an instrumented global allocator flush against \
